@@ -22,7 +22,8 @@ Failure classes of clause 1 (every minimal differing path of dev' vs new is attr
   <vendor>:cmd_paths           juniper / routeros: the rows of the patch tree executed block by block do not show the
                                difference, the flattened commands of formatter.cmd_paths do
   undecodable:<vendor>         a flat (juniper / routeros) command that cannot be split back into a path
-further keys  undo_redo-yields-add-before-remove (the real logic function called on the real make_pre buckets of the step),
+further keys  patch-raises:<exception> (the real pipeline raises on an in-scope input),
+             undo_redo-yields-add-before-remove (the real logic function called on the real make_pre buckets of the step),
              block-nesting-broken:<vendor>  (huawei / cisco / arista: the CLI is stateful; a command path must be typed in the
 block the previous commands left the CLI in: same block, the block just opened, or the enclosing one after the exit word)
 """
@@ -493,7 +494,13 @@ def check_chain(vendor, rbt, ordt, chain):
     dev = to_tree(chain[0])
     for step, newn in enumerate(chain[1:], start=1):
         new = to_tree(newn)
-        diff, patch, cmds = real_step(e, dev, new)
+        try:
+            diff, patch, cmds = real_step(e, dev, new)
+        except Exception as err:  # noqa
+            fails.append((K + "patch-raises:" + type(err).__name__, "step %d (%s): _diff_and_patch / cmd_paths raise on configurations "
+                          "with at most one row per (rule, key): %s" % (step, vendor, str(err)[:200]), "a patch",
+                          dict(before=to_nested(dev), desired=newn)))
+            return fails, info
         info["cmds"] += len(cmds)
         try:
             dev2 = devsim.dev_apply(dev, cmds, rbt, vendor, schema=[new])
@@ -531,12 +538,17 @@ def check_chain(vendor, rbt, ordt, chain):
                           dict(device=to_nested(devsim.known_part(new, rbt))),
                           dict(device=to_nested(devsim.known_part(dev2, rbt)), cmds=cmds, before=to_nested(dev))))
         if not res:
-            d2 = patching.strip_unchanged(patching.make_diff(dev2, new, e.rb, []))
+            try:
+                d2 = patching.strip_unchanged(patching.make_diff(dev2, new, e.rb, []))
+                _d, _p, cmds2 = real_step(e, dev2, new)
+            except Exception as err:  # noqa
+                fails.append((K + "patch-raises:" + type(err).__name__, "step %d (%s): the second diff / patch raises: %s" %
+                              (step, vendor, str(err)[:200]), "an empty diff", dict(device=to_nested(dev2), desired=newn)))
+                return fails, info
             if d2 != []:
                 fails.append((K + "second-diff-not-empty:" + str(first_logic(rbt, d2)),
                               "step %d (%s): the device holds the desired configuration but the next diff is not empty" % (step, vendor), [],
                               dict(diff=[(str(op), row) for (op, row, _c, _m) in d2], device=to_nested(dev2), desired=newn)))
-            _d, _p, cmds2 = real_step(e, dev2, new)
             if cmds2:
                 fails.append((K + "second-patch-not-empty:" + str(first_logic(rbt, _d) or "none"),
                               "step %d (%s): the device holds the desired configuration but the next patch has commands" % (step, vendor), [],
